@@ -154,7 +154,7 @@ def step_obligations(pid, tier, seed, check, mutating_only=False):
     bounds.update(node_sizes=sizes, from_empty_k=k, per_condition_timeout_s=timeout)
     obs += failed_history_obligations(pid)
     if pid == 'C01':
-        obs += leaf_ir_obligations(pid, tier, 'get')
+        obs += leaf_ir_obligations(pid, tier, 'get') + leaf_ir_obligations(pid, tier, 'set')
         bounds['ir_leaf_kernels'] = '_bucket_get on leaves of 0..3 (thorough 0..6) symbolic native keys, II UU LL QQ (thorough + IU UI LQ QL)'
     return {'obligations': obs, 'bounds': bounds}
 
@@ -510,6 +510,7 @@ def commit_obligations(pid, tier, seed):
                         obs.append(dict(id=base + '+' + g2, mod='h_txn', fn='commit_step', nk=m,
                                         args=args + [('y', 'int'), ('op2', 'int'), ('cut2', 'int')],
                                         pre=pre + ['0 <= op2 < %d' % nops2, '0 <= cut2 < 2'], params=P2, timeout=t))
+    obs += leaf_ir_obligations(pid, tier, 'notify')
     bounds.update(per_condition_timeout_s=t, transactions='one operation + commit|abort; second operation + commit|abort on shapes with <= 4 (quick) / 5 keys')
     return {'obligations': obs, 'bounds': bounds}
 
@@ -813,6 +814,7 @@ def repr_obligations(pid, tier, seed):
                 continue
             obs.append(dict(id='%s/ir/%s/%s' % (pid, fam, which), engine='llsym', mod='h_kernel', fn='conv_native', nk=0,
                             args=[('n', 'int'), ('is_int', 'bool')], params=dict(family=fam, kernel='conv', which=which), timeout=t))
+    obs += leaf_ir_obligations(pid, tier, 'replace')
     return {'obligations': obs, 'bounds': {'python_integers': 'unbounded (z3 Int)', 'palette': npal,
                                            'ir_conversions': 'COPY_KEY_FROM_ARG / COPY_VALUE_FROM_ARG as compiled (clang -O1 IR of the family source) with the '
                                            'argument\'s integer value an unbounded z3 Int and its int-ness a z3 Bool',
@@ -942,6 +944,16 @@ def leaf_ir_obligations(pid, tier, what):
                             obs.append(dict(id='%s/ir/%s/range/n%d/low%d/ex%d/%s' % (pid, fam, n, low, ex, arg), engine='llsym', mod='h_kernel',
                                             fn='leaf_native', nk=0, args=names,
                                             params=dict(family=fam, kernel='leaf_range', n=n, low=low, exclude=ex, arg=arg), timeout=t))
+    if what in ('set', 'notify', 'replace'):
+        for fam in fams:
+            for n in ((0, 1, 2, 3) if quick else (0, 1, 2, 3, 4, 5)):
+                names = [('n', 'int'), ('v', 'int')] + [('k%d' % i, 'int') for i in range(n)] + [('w%d' % i, 'int') for i in range(n)]
+                for op in (('set', 'insert', 'delete') if what != 'replace' else ('set',)):
+                    for spare in (0, 1):
+                        if what != 'set' and (spare or n == 0):
+                            continue
+                        obs.append(dict(id='%s/ir/%s/%s/n%d/spare%d' % (pid, fam, op, n, spare), engine='llsym', mod='h_kernel', fn='leaf_set_native',
+                                        nk=0, args=names, params=dict(family=fam, kernel='leaf_set', n=n, op=op, spare=spare), timeout=t))
     return obs
 
 
@@ -969,7 +981,10 @@ PROPS = {
                     'exhausts the path tree (every feasible outcome of every key comparison the real code makes); only '
                     'CONFIRMED counts as discharged. Plus k symbolic inserts/deletes from the empty container.' + IR_LEAF_TEXT +
                     '_bucket_get returns the value stored under the equal key / reports KeyError (has_key: 1 / 0), for every feasible path of '
-                    'the binary search, leaves the leaf untouched and unpinned, never reads outside the key/value vectors.',
+                    'the binary search, leaves the leaf untouched and unpinned, never reads outside the key/value vectors; _bucket_set '
+                    '(assign, insert-if-absent, delete; full leaf -> Bucket_grow/realloc, last key -> vectors freed) leaves exactly the '
+                    'sorted-map result in the key/value vectors (strictly ascending, nothing lost or invented), returns 1 iff the number of '
+                    'entries changed, KeyError for deleting an absent key, sets the change flag and notifies persistence iff it modified the leaf.',
         functions=['BTrees._base.Tree/TreeSet/Bucket/Set public methods', '_OOBTree.so: _BTree_set, _BTree_get, BTree_grow, '
                    'BTree_split, BTree_split_root, BTree_deleteNextBucket, _bucket_set, _bucket_get, bucket_split, '
                    'Bucket_grow, set_* / TreeSet_* in-place operators, BTree_clear, update'],
@@ -1098,7 +1113,7 @@ PROPS = {
         assumptions=COMMON_ASSUME + ['the fault is raised by key comparisons only (not by value comparison or hashing)'],
     ),
     'C04': dict(
-        families=['OO'],
+        families=['OO', 'II', 'UU', 'LL', 'QQ'],
         gen=lambda tier, seed: commit_obligations('C04', tier, seed),
         explanation='Each catalogue shape with symbolic keys is stored through a mini object database (harness/minidb.py: real '
                     'persistent.PickleCache, register/readCurrent/setstate as the real code calls them, commit writes exactly the '
@@ -1107,7 +1122,9 @@ PROPS = {
                     'transaction is cut by commit or abort (solver-chosen); optionally a second operation and cut follow. After a '
                     'commit a fresh connection loads the stored records: equal contents, every key found by lookup, both '
                     'checkers and the walker accept; the writer sees the same. After an abort the writer sees the last committed '
-                    'contents in a sound tree. A missing change notification on any path therefore shows as a stale record.',
+                    'contents in a sound tree. A missing change notification on any path therefore shows as a stale record.' + IR_LEAF_TEXT +
+                    '_bucket_set calls the persistence API\'s changed() and sets *changed exactly when it modified the leaf (a replace by an '
+                    'equal value, an insert-if-absent of a present key and a failed delete do neither).',
         functions=['_OOBTree.so: PER_CHANGED sites of _bucket_set, bucket_split, Bucket_deleteNextBucket, _BTree_set (changed accumulator), '
                    'BTree_split, BTree_grow, BTree_getstate/_BTree_setstate, bucket_getstate/_bucket_setstate, _p_deactivate', 'BTrees._base: '
                    '_Tree._set/_del/_grow/_split (_p_changed), Bucket._set/_del, __getstate__/__setstate__'],
